@@ -39,13 +39,18 @@ mod b;
 /// Oracle breadth: secondary entry points, presets / options, thresholds, object histories (cells `wide/...`, S-only).
 #[path = "c01_wide.rs"]
 mod wide;
+/// Coq cases for the serialised forms, the context constructors and the parallel front end (ops 7-12).
+#[path = "c01_x.rs"]
+mod x;
 
-pub const IMPORTS_A: &str = "From ZV.C01 Require Import Model ModelCtx.\n";
+pub const IMPORTS_A: &str = "From ZV.C01 Require Import Model ModelCtx ModelSer.\n";
+/// ops 1-6 ModelCtx.v, 7-10 ModelSer.v
+pub const DISPATCH_A: &str = "(if op <? 7 then run_case_a op a b else run_case_ser op a b)";
 pub const HEADER_A: &str = r#"From ZV.Common Require Import Base Run.
-From ZV.C01 Require Import Model ModelCtx.
+From ZV.C01 Require Import Model ModelCtx ModelSer.
 Open Scope N_scope.
 Definition case_t : Type := N * list N * list N * list N.
-Definition run_case (op : N) (a b : list N) : list N := run_case_a op a b.
+Definition run_case (op : N) (a b : list N) : list N := if op <? 7 then run_case_a op a b else run_case_ser op a b.
 Definition ok (c : case_t) : bool :=
   let '(op, a, b, expect) := c in eqb_ln (run_case op a b) expect.
 "#;
@@ -86,7 +91,7 @@ fn fnv64(s: &str) -> u64 {
 }
 /// Coq cases per (operation, generator family): every modelled function is represented by every family
 fn coq_cap(op: u32, cat: u8, th: bool) -> usize {
-    let per_op = match op { 1 => 290, 2 => 420, 3 => 190, 4 => 260, 5 => 220, 6 => 300, _ => 40 };
+    let per_op = match op { 1 => 270, 2 => 380, 3 => 180, 4 => 240, 5 => 200, 6 => 270, 7 => 50, 8 => 120, 9 => 40, 10 => 140, 11 => 60, 12 => 40, _ => 40 };
     let pct = match cat { 0 => 15, 1 => 30, 2 => 15, 3 => 40, _ => 100 };
     (if th { 4 } else { 1 }) * per_op * pct / 100
 }
@@ -326,6 +331,7 @@ fn case_order0(cx: &mut Cx, train: &[u8], freqs: Option<[u32; 256]>, data: &[u8]
     if let (Some(ft), Ok(rr)) = (&flat, &r) { cx.coq(1, ft.clone(), data, obs(rr), "HuffmanEncoder::encode", force); }
     let bytes = judge(cx, cell, &cj, data, r, &mut |b, n| { let d = HuffmanDecoder::new(tree.clone()); guarded(|| es(d.decode(b, n))) });
     if let Some(bytes) = &bytes {
+        x::tree_ser_cases(cx, &tree, bytes, data.len(), force);
         // the tree as another process would obtain it
         let t2 = guarded(|| es(HuffmanTree::deserialize(&tree.serialize())));
         match t2 {
@@ -487,6 +493,7 @@ fn judge_encoder(cx: &mut Cx, prefix: &str, enc: ContextualHuffmanEncoder, cj: &
             if let Some(f) = &flat {
                 let mut a = vec![*n as u128, data.len() as u128]; a.extend(f.iter().cloned());
                 cx.coq(6, a, &bytes, obs(&Ok(data.to_vec())).into_iter().collect(), "decode_xn", force);
+                if eff_order == 1 && (data.len() + k) % 2 == 0 { x::enc_ser_cases(cx, &enc, 1, *n, &bytes, data.len(), force); }
                 // wrong length / damaged stream: whatever the decoder answers, the model answers the same
                 if data.len() % 4 == 1 && !bytes.is_empty() {
                     let mut g = bytes.clone();
@@ -509,6 +516,7 @@ fn judge_encoder(cx: &mut Cx, prefix: &str, enc: ContextualHuffmanEncoder, cj: &
     let cell = format!("{}/order{}", prefix, eff_order);
     let r = guarded(|| es(enc.encode(data)));
     if let (Some(f), Ok(rr)) = (&flat, &r) { cx.coq(3, f.clone(), data, obs(rr), "ContextualHuffmanEncoder::encode", force); }
+    if let Ok(Ok(b)) = &r { x::enc_ser_cases(cx, &enc, 0, 0, b, data.len(), force); }
     let dec = ContextualHuffmanDecoder::new(enc);
     let bytes = judge(cx, &cell, cj, data, r, &mut |b, n| guarded(|| es(dec.decode(b, n))));
     if let Some(bytes) = bytes {
@@ -760,15 +768,16 @@ fn run_jobs(jobs: Vec<JobSpec>, sum: &mut Summary, shards: &mut CoqShards, rng: 
 pub fn run_cells(sum: &mut Summary, shards: &mut CoqShards, rng: &mut Rng, args: &Args) {
     let th = args.thorough;
     // cells without a mechanism model of their own (the wrappers, the serialised forms, the SIMD bit buffer)
-    for c in ["huffman/order0/serialized_tree", "simd/avx2bmi2", "simd/avx2", "simd/sse42bmi2", "simd/sse42", "simd/bmi2", "simd/scalar", "parallel/adaptive", "bit_ops/varlen"] {
+    sum.cell_status("huffman/order0/serialized_tree", "M+S");
+    for c in ["simd/avx2bmi2", "simd/avx2", "simd/sse42bmi2", "simd/sse42", "simd/bmi2", "simd/scalar", "parallel/adaptive", "bit_ops/varlen"] {
         sum.cell_status(c, "S-only");
     }
     for v in ["x2", "x4", "x8"] { for c in ["default", "low_latency", "high_throughput", "always_parallel"] { for a in ["", "/auto_train"] {
         sum.cell_status(&format!("parallel/{}/{}{}", v, c, a), "S-only");
     } } }
     for pfx in ["ctx", "crafted"] {
-        for k in 0..3 { sum.cell_status(&format!("{}/order{}/serialized", pfx, k), "S-only"); }
-        for n in [1, 2, 4, 8] { sum.cell_status(&format!("{}/x{}/serialized", pfx, n), "S-only"); }
+        for k in 0..3 { sum.cell_status(&format!("{}/order{}/serialized", pfx, k), "M+S"); }
+        for n in [1, 2, 4, 8] { sum.cell_status(&format!("{}/x{}/serialized", pfx, n), "M+S"); }
     }
     let mut jobs: Vec<JobSpec> = vec![];
     // 1. enumerated universe: all strings of length <= 3 over a 3-letter alphabet x every variant x three trainings
@@ -911,7 +920,7 @@ pub fn run_cells(sum: &mut Summary, shards: &mut CoqShards, rng: &mut Rng, args:
 /// Header of the generated Coq case files: both halves' models, cases dispatched on the op number
 /// (Huffman half: ops below 100, `run_case_a` in ModelCtx.v; rANS / FSE / LZ half: `run_case_b` in ModelFse.v).
 fn merged_header() -> String {
-    format!("From ZV.Common Require Import Base Run.\n{}{}Open Scope N_scope.\nDefinition case_t : Type := N * list N * list N * list N.\nDefinition run_case (op : N) (a b : list N) : list N := if op <? 100 then run_case_a op a b else run_case_b op a b.\nDefinition ok (c : case_t) : bool :=\n  let '(op, a, b, expect) := c in eqb_ln (run_case op a b) expect.\n", IMPORTS_A, b::HEADER_B)
+    format!("From ZV.Common Require Import Base Run.\n{}{}Open Scope N_scope.\nDefinition case_t : Type := N * list N * list N * list N.\nDefinition run_case (op : N) (a b : list N) : list N := if op <? 100 then {} else run_case_b op a b.\nDefinition ok (c : case_t) : bool :=\n  let '(op, a, b, expect) := c in eqb_ln (run_case op a b) expect.\n", IMPORTS_A, b::HEADER_B, DISPATCH_A)
 }
 
 /// The two halves keep separate shard sets (the rANS / FSE cases are ~10x more expensive to evaluate in Coq, so their
